@@ -19,28 +19,28 @@ package asm
 //@   ensures n >= 1 ==> result == ite(n < 256, 1, ite(n < 65536, 2, ite(n < 16777216, 3, 4)))
 
 //@ func writeOpcode
-//@   serves C16
+//@   serves C16, C14
 //@   requires w != nil
 //@   modifies bufStr[refOf(w)]
-//@   ensures[C16] @op result1 == nil && result0 == 2 && buf(w) == old(buf(w)) + chr(int(op) / 256) + chr(int(op) % 256)
+//@   ensures @op result1 == nil && result0 == 2 && buf(w) == old(buf(w)) + chr(int(op) / 256) + chr(int(op) % 256)
 
 //@ func writeSym
-//@   serves C16
+//@   serves C16, C14
 //@   requires w != nil
 //@   modifies bufStr[refOf(w)]
-//@   ensures[C16] @sym len(s) <= 255 ==> result1 == nil && buf(w) == old(buf(w)) + chr(len(s)) + s
-//@   ensures[C16] @toolong len(s) > 255 ==> result1 != nil && buf(w) == old(buf(w))
+//@   ensures @sym len(s) <= 255 ==> result1 == nil && buf(w) == old(buf(w)) + chr(len(s)) + s
+//@   ensures @toolong len(s) > 255 ==> result1 != nil && buf(w) == old(buf(w))
 
 // an integer argument: one length byte, then the big-endian bytes without leading zeros (0 is 01 00)
 //@ func writeSize
-//@   serves C16
+//@   serves C16, C14
 //@   requires w != nil
 //@   modifies bufStr[refOf(w)]
-//@   ensures[C16] @ok result1 == nil
-//@   ensures[C16] @b1 n < 256 ==> buf(w) == old(buf(w)) + chr(1) + chr(int(n))
-//@   ensures[C16] @b2 n >= 256 && n < 65536 ==> buf(w) == old(buf(w)) + chr(2) + chr(int(n) / 256) + chr(int(n) % 256)
-//@   ensures[C16] @b3 n >= 65536 && n < 16777216 ==> buf(w) == old(buf(w)) + chr(3) + chr(int(n) / 65536) + chr(int(n) / 256 % 256) + chr(int(n) % 256)
-//@   ensures[C16] @b4 n >= 16777216 ==> buf(w) == old(buf(w)) + chr(4) + chr(int(n) / 16777216) + chr(int(n) / 65536 % 256) + chr(int(n) / 256 % 256) + chr(int(n) % 256)
+//@   ensures @ok result1 == nil
+//@   ensures @b1 n < 256 ==> buf(w) == old(buf(w)) + chr(1) + chr(int(n))
+//@   ensures @b2 n >= 256 && n < 65536 ==> buf(w) == old(buf(w)) + chr(2) + chr(int(n) / 256) + chr(int(n) % 256)
+//@   ensures @b3 n >= 65536 && n < 16777216 ==> buf(w) == old(buf(w)) + chr(3) + chr(int(n) / 65536) + chr(int(n) / 256 % 256) + chr(int(n) % 256)
+//@   ensures @b4 n >= 16777216 ==> buf(w) == old(buf(w)) + chr(4) + chr(int(n) / 16777216) + chr(int(n) / 65536 % 256) + chr(int(n) / 256 % 256) + chr(int(n) % 256)
 
 // ---- argument groups: exactly the arguments held by the parsed line, in the VM's order ----
 // two symbols; an all-digit selector arrives as a number (Arg.Size) and is written back in decimal
@@ -84,3 +84,22 @@ package asm
 //@   modifies bufStr[refOf(b)]
 //@   ensures[C16] @small len(*arg.Sym) <= 255 && *arg.Size < 256 ==> result1 == nil
 //@     && buf(b) == old(buf(b)) + chr(len(*arg.Sym)) + *arg.Sym + chr(1) + chr(int(*arg.Size)) + chr(int(*arg.Flag))
+
+// ---- agreement with the VM's decoders (C14) ----
+//@ func lemmaLoadRoundTrip
+//@   serves C14
+//@   modifies bufStr[ALL]
+//@   requires len(s) >= 1 && len(s) <= 255
+//@   ensures[C14] @roundtrip result3 == nil && result0 == s && result1 == n && len(result2) == 0
+
+//@ func lemmaTwoSymRoundTrip
+//@   serves C14
+//@   modifies bufStr[ALL]
+//@   requires len(s) >= 1 && len(s) <= 255 && len(t) >= 1 && len(t) <= 255
+//@   ensures[C14] @roundtrip result3 == nil && result0 == s && result1 == t && len(result2) == 0
+
+//@ func lemmaCatchRoundTrip
+//@   serves C14
+//@   modifies bufStr[ALL]
+//@   requires len(s) >= 1 && len(s) <= 255
+//@   ensures[C14] @roundtrip result4 == nil && result0 == s && result1 == n && result2 == (mode > 0) && len(result3) == 0
